@@ -353,7 +353,7 @@ def rule_nul(X, R, rule="R20-nul"):
             "byte vector mutated only by append()/clear()", "writers: %s" % sorted(writers))
 
 
-def rule_utf8(X, R, rule="R20-utf8"):
+def rule_utf8(X, R, rule="R20-utf8", floor=10):
     bad = 0
     good = 0
     for hh in X.hir_list:
@@ -369,7 +369,7 @@ def rule_utf8(X, R, rule="R20-utf8"):
             elif cal == "core::str::converts::from_utf8":
                 good += 1
                 R.ok(rule, fn, "checked from_utf8 on caller memory", where=c["sp"])
-    R.floor(rule, "checked from_utf8 conversions", good, 10)
+    R.floor(rule, "checked from_utf8 conversions", good, floor)
     return bad
 
 
